@@ -1,10 +1,232 @@
-//! C14 — not built yet.
+//! C14 Serials advance once per change and retained history is bounded.
+//!
+//! The history-size value goes through routinator's own option parsers (command line or config
+//! file); a generated sequence of validation results (changing or not) is installed; the serial
+//! is compared with the number of changes, and the number of retained change sets is observed
+//! exactly: every change set ever pushed is obtained once as the history's own `Arc` (the answer
+//! to "one behind") and kept as a `Weak` — it is retained iff the `Weak` is still alive.
+
+use std::sync::{Arc, Weak};
+
+use proptest::prelude::*;
+use routinator::payload::{PayloadDelta, SharedHistory};
+use rpki::rtr::Serial;
+use serde::{Deserialize, Serialize};
 
 use crate::core::*;
+use crate::hist::*;
+use crate::pay::*;
 
-pub const IMPLEMENTED: bool = false;
+pub const KEY_ZERO: &str = "C14/retained-exceeds-history-size/history-size=0";
 
-pub fn run(_ctx: &Ctx, _rep: &mut Report, _replay: Option<&serde_json::Value>) {
-    eprintln!("C14: check not implemented");
-    std::process::exit(2);
+#[derive(Serialize, Deserialize, Clone, Debug)]
+pub struct Case {
+    pub keep: usize,
+    /// history-size given in the config file (`history-size = N`) instead of `--history N`.
+    pub via_file: bool,
+    pub sets: Vec<MSet>,
+    /// Judge the retention bound even for the known-finding shape (directed representative only).
+    #[serde(default)]
+    pub known: bool,
+}
+
+#[derive(Serialize, Deserialize, Clone, Debug)]
+pub struct LongCase {
+    pub keep: usize,
+    pub changes: u32,
+}
+
+fn bound(keep: usize) -> usize {
+    keep.max(1)
+}
+
+struct Tracker {
+    weaks: Vec<Weak<PayloadDelta>>,
+    /// Index of the oldest change set that was still alive at the last count (eviction is FIFO,
+    /// but nothing is assumed: everything from here on is re-counted).
+    floor: usize,
+}
+
+impl Tracker {
+    fn new() -> Self {
+        Tracker { weaks: Vec::new(), floor: 0 }
+    }
+    /// Registers the change set leading to the current serial. Err = cannot be observed.
+    fn push(&mut self, history: &SharedHistory, serial: u32) -> Result<(), String> {
+        let arc = history.read().delta_since(Serial::from(serial.wrapping_sub(1))).ok_or("no change set for the previous serial")?;
+        if Arc::strong_count(&arc) < 2 {
+            return Err("answer for the previous serial is not the retained change set".into());
+        }
+        self.weaks.push(Arc::downgrade(&arc));
+        Ok(())
+    }
+    fn retained(&mut self) -> usize {
+        // all older ones were dead at an earlier count and a dropped Arc never comes back
+        while self.floor < self.weaks.len() && self.weaks[self.floor].strong_count() == 0 {
+            self.floor += 1;
+        }
+        self.weaks[self.floor..].iter().filter(|w| w.strong_count() > 0).count()
+    }
+}
+
+fn judge(env: &Env, case: &Case, excl: &std::cell::Cell<u64>, info: &mut CaseInfo) -> Verdict {
+    let keep = case.keep;
+    let config = if case.via_file { env.config(&[format!("history-size = {}", keep)], &[]) } else { env.config(&[], &["--history".into(), keep.to_string()]) };
+    let config = match config {
+        Ok(c) => c,
+        Err(_) => return Verdict::Dropped("history_size_not_accepted".into()),
+    };
+    if config.history_size != keep {
+        return Verdict::fail("C14/config-value-changed", format!("history-size {} read as {}", keep, config.history_size));
+    }
+    info.class(format!("keep={}", keep));
+    info.class(if case.via_file { "via=file" } else { "via=cli" });
+    let judge_retention = keep != 0 || case.known;
+    let history = SharedHistory::from_config(&config);
+    let mut tracker = Tracker::new();
+    let mut expected: u32 = 0;
+    let mut prev: Option<&MSet> = None;
+    let mut max_retained = 0usize;
+    let mut unchanged_runs = 0;
+    for (step, set) in case.sets.iter().enumerate() {
+        let changed = prev.map(|p| p != set).unwrap_or(false);
+        install(&history, &config, set);
+        if changed {
+            expected += 1;
+        } else if prev.is_some() {
+            unchanged_runs += 1;
+        }
+        prev = Some(set);
+        let got = serial_of(&history);
+        let (_, rtr_serial) = rtr_notify(&history);
+        if got != expected || rtr_serial != expected {
+            let key = if changed { "C14/serial-not-advanced-by-one" } else if step == 0 { "C14/first-serial-not-0" } else { "C14/serial-moved-without-change" };
+            return Verdict::fail(key, format!("step {} (changed={}): serial {} (RTR notify {}) expected {}", step, changed, got, rtr_serial, expected));
+        }
+        match served_set(&history) {
+            Some(Ok(s)) if s == *set => {}
+            other => return Verdict::fail("C14/served-set-mismatch", format!("step {}: served {:?} expected {:?}", step, other, set)),
+        }
+        if changed {
+            if let Err(e) = tracker.push(&history, expected) {
+                return Verdict::Dropped(format!("untrackable: {}", e));
+            }
+        }
+        let retained = tracker.retained();
+        max_retained = max_retained.max(retained);
+        // black-box lower bound as a cross-check: answering distance d needs d change sets
+        let mut max_dist = 0u32;
+        for d in 1..=expected.min(keep as u32 + 3) {
+            if history.read().delta_since(Serial::from(expected - d)).is_some() {
+                max_dist = d;
+            }
+        }
+        if !judge_retention {
+            if retained > bound(keep) {
+                excl.set(excl.get() + 1);
+            }
+            continue;
+        }
+        if retained > bound(keep) {
+            return Verdict::fail(
+                format!("C14/retained-exceeds-history-size/history-size={}", keep),
+                format!("step {}: {} change sets retained after {} changes with history-size {} (bound {})", step, retained, expected, keep, bound(keep)),
+            );
+        }
+        if max_dist as usize > bound(keep) {
+            return Verdict::fail(
+                format!("C14/served-distance-exceeds-history-size/history-size={}", keep),
+                format!("step {}: a client {} serials behind is answered with history-size {}", step, max_dist, keep),
+            );
+        }
+    }
+    let beyond = (expected as usize).saturating_sub(bound(keep));
+    info.nt(beyond >= 3 && unchanged_runs >= 1);
+    info.class(if beyond >= 3 { "overflow>=3" } else if beyond >= 1 { "overflow=1-2" } else { "not_full" });
+    info.class(if unchanged_runs > 0 { "has_unchanged_runs" } else { "all_changing" });
+    info.class(format!("max_retained={}", if max_retained > 5 { ">5".to_string() } else { max_retained.to_string() }));
+    Verdict::Pass
+}
+
+fn origin(a: u8) -> MItem {
+    MItem::Origin(MOrigin::new(std::net::IpAddr::V4(std::net::Ipv4Addr::new(10, a, 0, 0)), 16, None, 64496))
+}
+
+/// Long alternating history: retention must stay bounded over thousands of changes.
+fn judge_long(env: &Env, case: &LongCase, info: &mut CaseInfo) -> Verdict {
+    let keep = case.keep;
+    let config = match env.config(&[], &["--history".into(), keep.to_string()]) {
+        Ok(c) => c,
+        Err(_) => return Verdict::Dropped("history_size_not_accepted".into()),
+    };
+    info.class(format!("long/keep={}", keep));
+    let history = SharedHistory::from_config(&config);
+    let sets = [MSet::from_items([origin(1)]), MSet::from_items([origin(1), origin(2)]), MSet::from_items([origin(3)])];
+    let ex: Vec<_> = sets.iter().map(exceptions_for).collect();
+    let mut tracker = Tracker::new();
+    history.update(routinator::payload::ValidationReport::new(&config), &ex[0], routinator::metrics::Metrics::new());
+    history.mark_update_done();
+    for i in 1..=case.changes {
+        // every third run repeats the data set: no change
+        for rep in 0..(if i % 3 == 0 { 2 } else { 1 }) {
+            let changed = history.update(routinator::payload::ValidationReport::new(&config), &ex[(i % 3) as usize], routinator::metrics::Metrics::new());
+            history.mark_update_done();
+            let _ = (rep, changed);
+        }
+        let got = serial_of(&history);
+        if got != i {
+            return Verdict::fail("C14/serial-not-advanced-by-one", format!("after {} changes (with repeats) serial is {}", i, got));
+        }
+        if let Err(e) = tracker.push(&history, i) {
+            return Verdict::Dropped(format!("untrackable: {}", e));
+        }
+        if i % 1024 == 0 || i + 8 >= case.changes || (i as usize) <= keep + 8 && i < 64 {
+            let retained = tracker.retained();
+            if retained > bound(keep) {
+                return Verdict::fail(format!("C14/retained-exceeds-history-size/history-size={}", keep), format!("{} change sets retained after {} changes with history-size {}", retained, i, keep));
+            }
+        }
+    }
+    info.nt(case.changes as usize >= bound(keep) + 3);
+    Verdict::Pass
+}
+
+pub fn case_strategy(max_len: usize) -> impl Strategy<Value = Case> {
+    (prop::sample::select(vec![0usize, 1, 2, 5, 65535]), any::<bool>(), history_strategy(1, max_len, 6, 40)).prop_map(|(keep, via_file, sets)| Case { keep, via_file, sets, known: false })
+}
+
+pub fn run(ctx: &Ctx, rep: &mut Report, replay: Option<&serde_json::Value>) {
+    rep.rule("sequences of 1..=60 (thorough 1..=200) validation results (40 % repeat the previous data set) over <= 6 origins/router keys x history-size in {0,1,2,5,65535} given on the command line (--history) or in the config file (history-size), both read by routinator's parsers; serial checked after every result against the number of changes; retained change sets counted exactly through Weak references to the history's own Arc<PayloadDelta> (bound max(history-size,1)) plus the black-box served-distance bound; long alternating histories (2 000 changes quick; 70 000 for history-size 65535 in thorough) check the bound far beyond the limit; non-trivial = >= 3 changing results beyond the retention limit and >= 1 unchanged result; distinct by serialised case");
+    rep.assume("the change set answered for 'one serial behind' is the retained Arc itself (checked per step via strong_count >= 2, otherwise the case is dropped)");
+    rep.assume("history-size values > 65535 are accepted on the command line only and pre-allocate the queue; they are not explored (allocation of the queue, not retention)");
+    let env = Env::new(ctx.scratch());
+    let excl = std::cell::Cell::new(0u64);
+    let prop = |case: &Case, info: &mut CaseInfo| judge(&env, case, &excl, info);
+    let prop_long = |case: &LongCase, info: &mut CaseInfo| judge_long(&env, case, info);
+    if let Some(v) = replay {
+        let t: Tagged<serde_json::Value> = serde_json::from_value(v.clone()).expect("replay");
+        match t.sub.as_str() {
+            "long" => run_case(ctx, rep, "long", &serde_json::from_value::<LongCase>(t.case).expect("case"), prop_long),
+            sub => run_case(ctx, rep, sub, &serde_json::from_value::<Case>(t.case).expect("case"), prop),
+        }
+        return;
+    }
+    // directed representative of the known finding: history-size 0 never evicts
+    let rep_sets: Vec<MSet> = (0..=3u8).map(|i| MSet::from_items((0..=i).map(origin))).collect();
+    run_case(ctx, rep, "known-history-size-0", &Case { keep: 0, via_file: false, sets: rep_sets, known: true }, prop);
+    run_prop(ctx, rep, "history", ctx.tier.pick(10_000, 40_000), case_strategy(ctx.tier.pick(60, 200)), prop);
+    let mut longs = vec![LongCase { keep: 1, changes: 2_000 }, LongCase { keep: 2, changes: 2_000 }, LongCase { keep: 5, changes: 2_000 }];
+    if ctx.tier == Tier::Thorough {
+        longs.push(LongCase { keep: 65535, changes: 70_000 });
+        longs.push(LongCase { keep: 5, changes: 100_000 });
+    }
+    for l in &longs {
+        if rep.violated() {
+            break;
+        }
+        run_case(ctx, rep, "long", l, prop_long);
+    }
+    if excl.get() > 0 {
+        *rep.excluded_known.entry(KEY_ZERO.to_string()).or_default() += excl.get();
+    }
 }
